@@ -146,6 +146,35 @@ def tree_facts_text(tu, repo, root='/verif'):
     find_gp(body3)
     if len(climbs) != 1: raise E('climbing loop: parentNode declaration not found once')
     climb = pexpr([x for x in climbs[0]['inner'] if isinstance(x, dict)][0])
+    # the climbing loop's stop rule: `bool stop = !pvRebalance(parentNode, index + 1, savedNode) && !pvRebalance(parentNode, index, savedNode) && fast;`
+    stops = []
+    def find_stop(n):
+        if not isinstance(n, dict): return
+        if n.get('kind') == 'VarDecl' and n.get('name') == 'stop': stops.append(n)
+        for x in n.get('inner', []) or []: find_stop(x)
+    find_stop(body3)
+    if len(stops) != 1: raise E('climbing loop: declaration of `stop` not found once')
+    def bexp(n):
+        n = strip(n)
+        k = n.get('kind')
+        if k == 'BinaryOperator' and n.get('opcode') == '&&': return '(BAnd %s %s)' % (bexp(n['inner'][0]), bexp(n['inner'][1]))
+        if k == 'UnaryOperator' and n.get('opcode') == '!': return '(BNot %s)' % bexp(n['inner'][0])
+        if k == 'DeclRefExpr' and n['referencedDecl']['name'] == 'fast': return 'BFast'
+        if k in ('CXXMemberCallExpr', 'CallExpr') and callee(n) == 'pvRebalance' and len(n['inner']) == 4:
+            a0, a1, a2 = [strip(x) for x in n['inner'][1:4]]
+            if not (a0.get('kind') == 'DeclRefExpr' and a0['referencedDecl']['name'] == 'parentNode' and a2.get('kind') == 'DeclRefExpr' and a2['referencedDecl']['name'] == 'savedNode'):
+                raise E('climbing loop: pvRebalance is not called with (parentNode, .., savedNode)')
+            if a1.get('kind') == 'DeclRefExpr' and a1['referencedDecl']['name'] == 'index': return '(BReb 0)'
+            if a1.get('kind') == 'BinaryOperator' and a1.get('opcode') == '+':
+                l_, r_ = strip(a1['inner'][0]), strip(a1['inner'][1])
+                if l_.get('kind') == 'DeclRefExpr' and l_['referencedDecl']['name'] == 'index' and r_.get('kind') == 'IntegerLiteral':
+                    return '(BReb %d)' % int(r_['value'])
+            raise E('climbing loop: unexpected child index in a pvRebalance call')
+        raise E('climbing loop: unexpected term %s in the stop rule' % k)
+    stop_rule = bexp([x for x in stops[0]['inner'] if isinstance(x, dict)][0])
+    # shape of the rest of the loop body: index = parentNode->GetChildIndex(node); ... if (stop) break; node = parentNode;
+    jb = json.dumps(body3)
+    if '"name": "GetChildIndex"' not in jb: raise E('climbing loop: index is not parentNode->GetChildIndex(node)')
     return ('(* GENERATED by props/C02/astfacts.py from the clang AST of TreeSet.h (' + os.path.basename(tu) + ') -- do not edit *)\n'
             'From Coq Require Import List.\nFrom C02 Require Import GenPrimsC02.\nImport ListNotations.\n\n'
             '(* TreeSet::MergeTo(TreeSet& dstTreeSet): the if / else-if chain after `Node* rootNode = nullptr;` -- condition and the\n'
@@ -156,4 +185,6 @@ def tree_facts_text(tu, repo, root='/verif'):
             '(* pvRebalance(Node* node, Node* savedNode, bool fast): body of `while (mRootNode->GetCount() == 0 && !mRootNode->IsLeaf())` *)\n'
             'Definition collapse_body : list cstmt :=\n  [%s].\n\n'
             '(* ... and the pointer the climbing loop dereferences first: `Node* parentNode = <this>;` *)\n'
-            'Definition climb_reads : pexpr := %s.\n') % (';\n   '.join(branches), reads, ';\n   '.join(out), climb)
+            'Definition climb_reads : pexpr := %s.\n\n'
+            '(* ... and its stop rule `bool stop = <this>;` (BReb k = pvRebalance(parentNode, index + k, savedNode); C++ && short-circuits) *)\n'
+            'Definition climb_stop : bexp := %s.\n') % (';\n   '.join(branches), reads, ';\n   '.join(out), climb, stop_rule)
